@@ -355,7 +355,9 @@ def obligations(tier, seed):
                               max_paths=3000, timeout_s=200))
     from symx import chrun
 
-    conds = ["read_version", "roundtrip_creator"] if quick else ["read_title", "read_version", "read_creator", "read_source", "read_artist_unicode", "read_audio",
+    # (CrossHair never reports these conditions as confirmed - not even for length <= 2 in 100 s: str.strip/split on a symbolic
+    #  str do not exhaust - so they are a counterexample search only; they run in the thorough tier and are reported as inconclusive)
+    conds = [] if quick else ["read_title", "read_version", "read_creator", "read_source", "read_artist_unicode", "read_audio",
                                                                 "roundtrip_version", "roundtrip_creator", "roundtrip_title_unicode", "roundtrip_source"]
     for fn in conds:
         obs.append(Obligation("C01/text/%s" % fn, chrun.run, kind="ch", params=dict(module="ch.osu_meta", func=fn, timeout=45 if quick else 120),
